@@ -364,6 +364,7 @@ def interface():
         with open(os.path.join(VERIF_ROOT, "interface_census.json")) as f:
             _IFACE = json.load(f)["classes"]
         _IFACE["verif.probe.ProbeSolver"] = {"1": ["position", "value"]}
+        _IFACE["verif.probe.ProbeValues"] = {"1": ["position", "value", "count", "amplitude", "region", "tag", "value scaled"]}
     return _IFACE
 
 
